@@ -112,7 +112,24 @@ func (e *Env) RCursor(withFileOrder bool) {
 			}
 			return false
 		}
+		curAlias, linesAlias := e.stateAliases(info, fd)
+		isAliasOf := func(x ast.Expr, o types.Object) bool {
+			id, ok := ast.Unparen(x).(*ast.Ident)
+			return ok && o != nil && info.Uses[id] == o
+		}
 		ast.Inspect(fd.Body, func(n ast.Node) bool {
+			// write-back of a local copy of the cursor / line table (its changes are decided as
+			// line-break effects on the copy)
+			if as, ok := n.(*ast.AssignStmt); ok && len(as.Lhs) == 1 && len(as.Rhs) == 1 && as.Tok == token.ASSIGN {
+				if (isCursor(as.Lhs[0]) && isAliasOf(as.Rhs[0], curAlias)) ||
+					(e.isRestorerField(info, as.Lhs[0], "lines") && isAliasOf(as.Rhs[0], linesAlias)) ||
+					(e.isRestorerField(info, as.Lhs[0], "cursorAtNewLine") && isAliasOf(as.Rhs[0], curAlias)) {
+					nCursor++
+					nLines++
+					nMarker++
+					return false
+				}
+			}
 			if st, ok := n.(ast.Stmt); ok && inLB(st) {
 				switch st.(type) {
 				case *ast.AssignStmt, *ast.IncDecStmt:
@@ -576,11 +593,30 @@ type lbEffect struct {
 }
 
 func (e *Env) lineBreakEffect(info *types.Info, block []ast.Stmt) lbEffect {
+	return e.lineBreakEffectA(info, block, nil, nil)
+}
+
+// lineBreakEffectA: curAlias / linesAlias are locals that stand for r.cursor / r.lines in the block
+// (a function that works on local copies and writes them back at the end).
+func (e *Env) lineBreakEffectA(info *types.Info, block []ast.Stmt, curAlias, linesAlias types.Object) lbEffect {
 	eff := lbEffect{}
 	cur := 0
 	pos := map[types.Object]int{}  // token.Pos locals: value - c0
 	offs := map[types.Object]int{} // int locals: value - (c0 - base)
-	isCursor := func(x ast.Expr) bool { return e.isRestorerField(info, ast.Unparen(x), "cursor") }
+	isCursor := func(x ast.Expr) bool {
+		if e.isRestorerField(info, ast.Unparen(x), "cursor") {
+			return true
+		}
+		id, ok := ast.Unparen(x).(*ast.Ident)
+		return ok && curAlias != nil && info.Uses[id] == curAlias
+	}
+	isLines := func(x ast.Expr) bool {
+		if e.isRestorerField(info, ast.Unparen(x), "lines") {
+			return true
+		}
+		id, ok := ast.Unparen(x).(*ast.Ident)
+		return ok && linesAlias != nil && info.Uses[id] == linesAlias
+	}
 	isBase := func(x ast.Expr) bool { return e.isRestorerField(info, ast.Unparen(x), "base") }
 	constInt := func(x ast.Expr) (int, bool) {
 		x = ast.Unparen(x)
@@ -685,7 +721,7 @@ func (e *Env) lineBreakEffect(info *types.Info, block []ast.Stmt) lbEffect {
 					eff.pos = x.Pos()
 					return eff
 				}
-			case e.isRestorerField(info, l, "lines"):
+			case isLines(l):
 				cl, ok := ast.Unparen(r).(*ast.CallExpr)
 				if !ok || len(cl.Args) != 2 {
 					eff.why = "line table store is not append(r.lines, offset)"
@@ -739,6 +775,7 @@ func (e *Env) lineBreakEffect(info *types.Info, block []ast.Stmt) lbEffect {
 
 // lineBreakBlocks: the innermost blocks of fd that append a plain offset to the line table.
 func (e *Env) lineBreakBlocks(info *types.Info, fd *ast.FuncDecl) [][]ast.Stmt {
+	curAlias, linesAlias := e.stateAliases(info, fd)
 	var out [][]ast.Stmt
 	ast.Inspect(fd.Body, func(nd ast.Node) bool {
 		blk, ok := nd.(*ast.BlockStmt)
@@ -747,9 +784,21 @@ func (e *Env) lineBreakBlocks(info *types.Info, fd *ast.FuncDecl) [][]ast.Stmt {
 		}
 		for _, st := range blk.List {
 			as, ok := st.(*ast.AssignStmt)
-			if !ok || len(as.Lhs) != 1 || !e.isRestorerField(info, as.Lhs[0], "lines") {
+			if !ok || len(as.Lhs) != 1 || len(as.Rhs) != 1 {
 				continue
 			}
+			isLines := e.isRestorerField(info, as.Lhs[0], "lines")
+			if id, ok := as.Lhs[0].(*ast.Ident); ok && linesAlias != nil && info.Uses[id] == linesAlias {
+				isLines = true
+			}
+			if !isLines {
+				continue
+			}
+			// the write-back of a local copy (r.lines = lines) is not a line break
+			if rid, ok := ast.Unparen(as.Rhs[0]).(*ast.Ident); ok && linesAlias != nil && info.Uses[rid] == linesAlias {
+				continue
+			}
+			_ = curAlias
 			// byte-indexed entries (line starts inside a literal or comment, in a loop over its
 			// text) do not move the cursor: the caller advances by len(text)
 			inTextLoop := false
@@ -782,9 +831,10 @@ func (e *Env) lineBreaksAdvance(c *schema.Ctx) {
 			e.Run.Violation("R-CURSOR", name+" exists", "", "function missing")
 			continue
 		}
+		ca, la := e.stateAliases(info, fd)
 		for _, blk := range e.lineBreakBlocks(info, fd) {
 			n++
-			eff := e.lineBreakEffect(info, blk)
+			eff := e.lineBreakEffectA(info, blk, ca, la)
 			key := fmt.Sprintf("%s: line break advances the cursor and sets the fresh-line marker", name)
 			if eff.why != "" {
 				e.Run.Check("R-CURSOR", key, e.Prog.Pos(eff.pos), false, eff.why)
@@ -1370,4 +1420,49 @@ func (e *Env) isExtendPast(c *schema.Ctx, pkg *packages.Package, call *ast.CallE
 		return true
 	}
 	return false
+}
+
+// stateAliases: locals of fd that are copies of r.cursor / r.lines, worked on and written back
+// (cursor := r.cursor … r.cursor = cursor;  lines := r.lines … r.lines = lines).
+func (e *Env) stateAliases(info *types.Info, fd *ast.FuncDecl) (curAlias, linesAlias types.Object) {
+	ast.Inspect(fd.Body, func(n ast.Node) bool {
+		as, ok := n.(*ast.AssignStmt)
+		if !ok || as.Tok != token.DEFINE || len(as.Lhs) != len(as.Rhs) {
+			return true
+		}
+		for i, l := range as.Lhs {
+			id, ok := l.(*ast.Ident)
+			if !ok {
+				continue
+			}
+			o := info.Defs[id]
+			if o == nil {
+				continue
+			}
+			back := func(field string) bool {
+				found := false
+				ast.Inspect(fd.Body, func(m ast.Node) bool {
+					if b, ok := m.(*ast.AssignStmt); ok && len(b.Lhs) == len(b.Rhs) {
+						for j, bl := range b.Lhs {
+							if e.isRestorerField(info, bl, field) {
+								if rid, ok := ast.Unparen(b.Rhs[j]).(*ast.Ident); ok && info.Uses[rid] == o {
+									found = true
+								}
+							}
+						}
+					}
+					return true
+				})
+				return found
+			}
+			if e.isRestorerField(info, ast.Unparen(as.Rhs[i]), "cursor") && back("cursor") {
+				curAlias = o
+			}
+			if e.isRestorerField(info, ast.Unparen(as.Rhs[i]), "lines") && back("lines") {
+				linesAlias = o
+			}
+		}
+		return true
+	})
+	return
 }
